@@ -91,7 +91,7 @@ CHECKS["C14"] = (
     "Model/Iterative.v: the grow-and-retest loop with arbitrary batch sizes, budget clamp, stop conditions, non-finite guard, failure modes. "
     "Theorems (any sizes, any draws): a normal return evaluated <= budget rows, returns <= n_requested samples, exactly n_requested when enough "
     "passed, fewer only when the budget is exhausted or the code's own next-batch estimate was not positive (a floating-point corner of the growth heuristic, DESIGN 8.3), every one accepted by the C02 rule against all likelihoods evaluated so far with the last "
-    "draws; too-small library raises; fuel exhaustion raises; evaluated rows are a prefix of a duplicate-free order; a returned non-JokerSamples "
+    "draws; too-small library raises; fuel exhaustion raises; the block bookkeeping of both loops is regenerated from the source (tools/py2v_iter.py -> Gen/IterBook.v, fail-closed) and Props/C14b.v proves, for every growth estimate, request, limit and sequence of acceptance counts, that the rounds evaluate contiguous, non-empty, disjoint blocks of the evaluation order from position 0 up to at most the limit; evaluated rows are a prefix of a duplicate-free order; a returned non-JokerSamples "
     "never matches the model. Each run Coq replays the recorded iterations (it_check).",
     "Trusted: as C02; the growth formula itself (a float truncation) is deliberately not modelled -- sizes are read off the recorded uniform() "
     "calls; maxiter=128 is not reachable in practice and is covered by the theorem only.",
